@@ -200,6 +200,11 @@ func (it *Interp) resetPath(prefix []int) {
 	it.recoverable = nil
 	it.wrapped = map[*Object]Value{}
 	it.pathNotes = nil
+	it.stack = nil
+	it.model = nil
+	it.modelMemo = nil
+	it.varRange = map[*Term][2]int64{}
+	it.ivMemo = map[*Term][3]int64{}
 	it.initThreads()
 }
 
@@ -249,7 +254,17 @@ func (it *Interp) runPath(fn *ssa.Function, prefix []int) (end string) {
 				rep.addViolation(it, label, x.msg+" in "+x.stack, nil)
 			}
 		default:
-			msg := fmt.Sprintf("engine error: %v\n%s", r, debug.Stack())
+			st := strings.Split(string(debug.Stack()), "\n")
+			var keep []string
+			for _, l := range st {
+				if strings.Contains(l, "/verif/engine/") && !strings.Contains(l, "runFrame") && !strings.Contains(l, "interp.go:6") {
+					keep = append(keep, strings.TrimSpace(l))
+				}
+				if len(keep) >= 8 {
+					break
+				}
+			}
+			msg := fmt.Sprintf("engine error: %v @ %s", r, strings.Join(keep, " < "))
 			if len(rep.Internal) < 5 {
 				rep.Internal = append(rep.Internal, msg)
 			}
@@ -259,6 +274,114 @@ func (it *Interp) runPath(fn *ssa.Function, prefix []int) (end string) {
 	it.call(fn, nil, nil)
 	rep.Completed++
 	return "return"
+}
+
+// sharedWork is the path worklist shared by the workers of one harness.
+type sharedWork struct {
+	mu        sync.Mutex
+	cond      *sync.Cond
+	items     [][]int
+	active    int
+	paths     int
+	maxPaths  int
+	truncated bool
+}
+
+func newSharedWork(maxPaths int) *sharedWork {
+	w := &sharedWork{maxPaths: maxPaths}
+	w.cond = sync.NewCond(&w.mu)
+	return w
+}
+
+func (w *sharedWork) push(p []int) {
+	w.mu.Lock()
+	w.items = append(w.items, p)
+	w.mu.Unlock()
+	w.cond.Signal()
+}
+
+func (w *sharedWork) pop() ([]int, bool) {
+	w.mu.Lock()
+	defer w.mu.Unlock()
+	for {
+		if w.paths >= w.maxPaths {
+			if len(w.items) > 0 {
+				w.truncated = true
+			}
+			w.cond.Broadcast()
+			return nil, false
+		}
+		if n := len(w.items); n > 0 {
+			p := w.items[n-1]
+			w.items = w.items[:n-1]
+			w.active++
+			w.paths++
+			return p, true
+		}
+		if w.active == 0 {
+			w.cond.Broadcast()
+			return nil, false
+		}
+		w.cond.Wait()
+	}
+}
+
+func (w *sharedWork) done() {
+	w.mu.Lock()
+	w.active--
+	w.mu.Unlock()
+	w.cond.Broadcast()
+}
+
+var slots chan struct{}
+
+func (r *Report) merge(o *Report) {
+	r.Paths += o.Paths
+	r.Completed += o.Completed
+	r.Killed += o.Killed
+	r.PanicPaths += o.PanicPaths
+	r.BranchQueries += o.BranchQueries
+	r.Transitions += o.Transitions
+	r.UnknownBranches += o.UnknownBranches
+	r.MapRanges += o.MapRanges
+	r.Steps += o.Steps
+	r.SolverTime += o.SolverTime
+	for i := range r.AssertQ {
+		r.AssertQ[i] += o.AssertQ[i]
+	}
+	for k, v := range o.Outside {
+		r.Outside[k] += v
+	}
+	for k, v := range o.Unwind {
+		r.Unwind[k] += v
+	}
+	for k, v := range o.Inconclusive {
+		r.Inconclusive[k] += v
+	}
+	for k, v := range o.AssertsSeen {
+		r.AssertsSeen[k] += v
+	}
+	for k := range o.Reached {
+		r.Reached[k] = true
+	}
+	for k := range o.Funcs {
+		r.Funcs[k] = true
+	}
+	for _, v := range o.Violations {
+		r.vioSeen[v.Label]++
+		if r.vioSeen[v.Label] <= 2 {
+			r.Violations = append(r.Violations, v)
+		}
+	}
+	for _, s := range o.Samples {
+		if len(r.Samples) < 4 {
+			r.Samples = append(r.Samples, s)
+		}
+	}
+	if len(r.Internal) < 5 {
+		r.Internal = append(r.Internal, o.Internal...)
+	}
+	r.SolverErrors = append(r.SolverErrors, o.SolverErrors...)
 }
 
 func runHarness(prog *ssa.Program, pkgs map[string]*ssa.Package, cfg *HarnessCfg, solverKind string) *Report {
@@ -274,50 +397,77 @@ func runHarness(prog *ssa.Program, pkgs map[string]*ssa.Package, cfg *HarnessCfg
 		rep.Internal = append(rep.Internal, "harness function not found: "+cfg.Func)
 		return rep
 	}
-	it := &Interp{prog: prog, tb: NewTB(), sizes: types.SizesFor("gc", "amd64"), fnInfos: map[*ssa.Function]*fnInfo{}, cfg: cfg, rep: rep, initOK: initAllowed}
-	if cfg.Mode == "math" {
-		it.mode = Math
-	}
-	it.funcHits = rep.Funcs
-	it.sv = NewSolver(solverKind, cfg.TimeoutMs)
-	defer it.sv.Close()
-	if p := os.Getenv("GOSYM_SMTLOG"); p != "" {
-		f, _ := os.Create(p + "." + cfg.Name + ".smt2")
-		it.sv.log = f
-		defer f.Close()
-	}
-	it.setupIntrinsics()
 	passes := []bool{false}
 	if cfg.MapOrder == "" || cfg.MapOrder == "two-global" {
 		passes = []bool{false, true}
+	}
+	nw := cfg.Workers
+	if nw <= 0 {
+		nw = 8
 	}
 	for _, rev := range passes {
 		if rev && rep.MapRanges == 0 {
 			break // no map with more than one entry was ranged over: order cannot matter
 		}
-		it.mapOrderRev = rev
-		it.work = [][]int{{}}
-		for len(it.work) > 0 {
-			if rep.Paths >= cfg.MaxPaths {
-				rep.Truncated = true
-				break
-			}
-			prefix := it.work[len(it.work)-1]
-			it.work = it.work[:len(it.work)-1]
-			end := it.runPath(fn, prefix)
-			if len(rep.Samples) < 4 {
-				rep.Samples = append(rep.Samples, map[string]interface{}{
-					"harness": cfg.Name, "path": rep.Paths, "decisions": len(it.decisions), "path_condition_literals": len(it.pc),
-					"symbolic_inputs": len(it.inputs), "end": end, "map_order_reversed": rev,
-				})
-			}
-			if os.Getenv("GOSYM_TRACE") != "" {
-				fmt.Fprintf(os.Stderr, "[%s] path %d (%d decisions) -> %s\n", cfg.Name, rep.Paths, len(it.decisions), end)
-			}
+		sw := newSharedWork(cfg.MaxPaths - rep.Paths)
+		sw.push([]int{})
+		var wg sync.WaitGroup
+		var mu sync.Mutex
+		for w := 0; w < nw; w++ {
+			wg.Add(1)
+			go func(w int) {
+				defer wg.Done()
+				var it *Interp
+				var wrep *Report
+				for {
+					prefix, ok := sw.pop()
+					if !ok {
+						break
+					}
+					slots <- struct{}{}
+					if it == nil {
+						wrep = newReport(cfg)
+						it = &Interp{prog: prog, tb: NewTB(), sizes: types.SizesFor("gc", "amd64"), fnInfos: map[*ssa.Function]*fnInfo{}, cfg: cfg, rep: wrep, initOK: initAllowed, shared: sw}
+						if cfg.Mode == "math" {
+							it.mode = Math
+						}
+						it.funcHits = wrep.Funcs
+						it.sv = NewSolver(solverKind, cfg.TimeoutMs)
+						if p := os.Getenv("GOSYM_SMTLOG"); p != "" {
+							f, _ := os.Create(fmt.Sprintf("%s.%s.%d.smt2", p, cfg.Name, w))
+							it.sv.log = f
+						}
+						it.setupIntrinsics()
+					}
+					it.mapOrderRev = rev
+					end := it.runPath(fn, prefix)
+					if len(wrep.Samples) < 2 {
+						wrep.Samples = append(wrep.Samples, map[string]interface{}{
+							"harness": cfg.Name, "decisions": len(it.decisions), "path_condition_literals": len(it.pc),
+							"symbolic_inputs": len(it.inputs), "end": end, "map_order_reversed": rev,
+						})
+					}
+					if os.Getenv("GOSYM_TRACE") != "" {
+						fmt.Fprintf(os.Stderr, "[%s/%d] path (%d decisions) -> %s\n", cfg.Name, w, len(it.decisions), end)
+					}
+					<-slots
+					sw.done()
+				}
+				if it != nil {
+					wrep.SolverTime = it.sv.Time.Seconds()
+					wrep.SolverErrors = it.sv.Errors
+					it.sv.Close()
+					mu.Lock()
+					rep.merge(wrep)
+					mu.Unlock()
+				}
+			}(w)
+		}
+		wg.Wait()
+		if sw.truncated {
+			rep.Truncated = true
 		}
 	}
-	rep.SolverTime = it.sv.Time.Seconds()
-	rep.SolverErrors = it.sv.Errors
 	rep.Wall = time.Since(t0).Seconds()
 	return rep
 }
@@ -436,7 +586,7 @@ func main() {
 	only := flag.String("only", "", "run only the harnesses whose name contains this string")
 	solverKind := flag.String("solver", "z3-new", "z3-new|z3|cvc5")
 	replay := flag.String("replay", "", "replay file to run natively")
-	jobs := flag.Int("j", 12, "parallel harnesses")
+	jobs := flag.Int("j", 16, "parallel path workers (solver processes) in total")
 	noReplay := flag.Bool("no-replay", false, "skip native replays (debugging)")
 	flag.StringVar(&repoDir, "repo", "/repo", "")
 	flag.StringVar(&verifDir, "verif", "/verif", "")
@@ -539,6 +689,7 @@ func main() {
 
 	reports := make([]*Report, len(hs))
 	var wg sync.WaitGroup
+	slots = make(chan struct{}, *jobs)
 	sem := make(chan struct{}, *jobs)
 	for i, h := range hs {
 		wg.Add(1)
